@@ -71,6 +71,9 @@ def parse_output(out, res):
         elif ln.startswith("Error: Action property ") or ln.startswith("Error: Temporal properties"):
             res.violated.append(ln[len("Error: "):].strip())
             seen_error = True
+        elif ln.startswith("Error: Postcondition "):
+            res.violated.append("POSTCONDITION:" + ln.split()[2])
+            seen_error = True
         elif ln.startswith("Error: Deadlock reached"):
             res.deadlock = True
             seen_error = True
